@@ -181,6 +181,16 @@ theorem identity_docD (ℓ : ℕ) (mp m : ℤ) (hmp : mp.natAbs ≤ ℓ) (hm : m
     docD ℓ 1 0 mp m = if mp = m then 1 else 0 := by
   rw [diag_docD ℓ 1 mp m hmp hm, map_one, one_pow, one_pow, one_mul]
 
+/-- the corner entry D_{ℓ,ℓ} = R_a^{2ℓ} -/
+theorem corner_docD (ℓ : ℕ) (A B : ℂ) : docD ℓ A B ℓ ℓ = A ^ (2 * ℓ) := by
+  rw [docD_eq_coeff _ _ _ ℓ ℓ (by simp) (by simp), nrm_self, one_mul]
+  have x1 : ((ℓ : ℤ) + ℓ).toNat = 2 * ℓ := by omega
+  have x2 : ((ℓ : ℤ) - ℓ).toNat = 0 := by omega
+  rw [x1, x2]
+  unfold gen
+  rw [pow_zero, mul_one, coeff_lin_pow]
+  simp
+
 /-! ### 4. the two rotors of one rotation -/
 
 theorem neg_docD (ℓ : ℕ) (A B : ℂ) (mp m : ℤ) (hmp : mp.natAbs ≤ ℓ) (hm : m.natAbs ≤ ℓ) :
